@@ -1,4 +1,4 @@
-// Counterexample found by mirsym/z3 for property C21: list operation panics on [[], "zz0"]: called `Option::unwrap()` on a `None` value
+// Counterexample found by mirsym/z3 for property C21: list operation panics on [0 | 0]: called `Option::unwrap()` on a `None` value
 // Replay: /verif/check C21 --replay /verif/replay/cases/C21-list_d1_panic.rs
 use proto_vulcan::prelude::*;
 use std::collections::hash_map::DefaultHasher;
@@ -19,12 +19,16 @@ fn elems(t: &T) -> Vec<T> {
 #[test]
 fn replay() {
     let x: T = LTerm::var("x");
-    let l: T = lterm!([[], "zz0"]);
+    let l: T = lterm!([0 | 0]);
     let xs = elems(&l);
     let it: Vec<T> = l.iter().cloned().collect();
     assert_eq!(it.len(), xs.len(), "iter() length on {}", l);
     for (a, b) in it.iter().zip(xs.iter()) { assert!(a == b, "iter() element on {}", l); }
     assert_eq!(l.iter().count(), xs.len());
+    { let mut c = l.clone(); let n = c.iter_mut().count(); assert_eq!(n, xs.len(), "iter_mut() length on {}", l); }
+    { let mut c = l.clone(); for (a, b) in c.iter_mut().zip(xs.iter()) { assert!(&*a == b, "iter_mut() element on {}", l); } }
+    for (i, x) in xs.iter().enumerate() { let mut c = l.clone(); assert!(&c[i] == x); let r: &mut T = &mut c[i]; assert!(&*r == x, "index_mut {} on {}", i, l); }
+    if l.is_list() && !l.is_improper() { let mut c = l.clone(); c.extend(vec![LTerm::from(77)]); assert!(elems(&l) == xs, "extend of a clone changed the original {}", l); assert_eq!(elems(&c).len(), xs.len() + 1); }
     for (i, x) in xs.iter().enumerate() { assert!(&l[i] == x, "index {} on {}", i, l); assert!(l.contains(x), "contains on {}", l); }
     if !l.is_improper() && l.is_list() {
         let rebuilt: T = LTerm::from_vec(xs.clone());
